@@ -366,9 +366,13 @@ class Observer:
                 if isinstance(b0, ast.Expr) and isinstance(b0.value, ast.Constant) \
                         and isinstance(b0.value.value, str):
                     doc_rng, doc_node = (b0.lineno, b0.end_lineno), b0.value
+        if islam:       # a continuation backslash is not part of the expression
+            keys = {k.rstrip(" \\"): v for k, v in keys.items()}
         out = []
         for n, p in enumerate(phys, 1):
             s = p.strip()
+            if islam:
+                s = s.rstrip(" \\")
             if not s:
                 out.append([0, 0])
                 continue
